@@ -187,7 +187,10 @@ def run(rep, repo, tier):
         '2n+4 bytes (single buffer entry point, all n), self-sizing overloads allocate at least what the encoder '
         'writes, and the shipped marker alphabets are consistent; for 2 scatter-gather pieces of arbitrary lengths '
         '(empty pieces included) the frame is closed, lies within 2*total+4 bytes and is at least total+3 bytes long, so no '
-        'piece is dropped (R-PIECES). decode(encode(p)) == p as a whole is not decided.')
+        'piece is dropped (R-PIECES); the decoding half is the set of receiver clauses of C05, evaluated here as R-DECODE (escape codes '
+        'decode to the markers they stand for, data bytes are stored unchanged, acceptance needs zero CRC residue and strips the CRC). '
+        'decode(encode(p)) == p follows by induction over the frame from the two halves (encoder grammar, receiver transitions) and '
+        'the residue property of the CRC-8 decided in C17; that composition is stated, not mechanised.')
     rep.assumptions += ['marker values of the configurable codec are arbitrary (symbolic context)',
                         'std::vector<uint8_t> is trusted and summarised (resize/operator[])',
                         'iovec based entry point analysed for the frame grammar with symbolic n, for sizes with n == 1 (self-sizing overload) and n == 2 (raw buffer)']
@@ -338,6 +341,10 @@ def run(rep, repo, tier):
     rep.add_absint('R-FRAME-LEGACY', summarize(it, r))
 
     alphabet(rep, repo)
+    # the decoding half of the round trip: the receiver clauses of C05 (each escape code is turned back into the marker it stands
+    # for, data bytes are stored as they are, a frame is accepted exactly with zero CRC residue and the CRC byte is stripped)
+    import c05
+    c05.run(rep, repo, tier, as_decoder=True)
     rep.floor('R-ESCTABLE:post', 10)
     rep.floor('R-FRAME:frame', 4)
     rep.floor('R-FRAME:post', 4)
